@@ -185,7 +185,6 @@ pub trait QueryBuilder:
             write!(sql, " ").unwrap();
             self.prepare_select_lock(lock, sql);
         }
-
     }
 
     // Translate the LIMIT and OFFSET expression in [`SelectStatement`]
@@ -234,11 +233,17 @@ pub trait QueryBuilder:
 
         self.prepare_update_condition(&update.from, &update.r#where, sql);
 
+        if self.returning_precedes_order_by() {
+            self.prepare_returning(&update.returning, sql);
+        }
+
         self.prepare_update_order_by(update, sql);
 
         self.prepare_update_limit(update, sql);
 
-        self.prepare_returning(&update.returning, sql);
+        if !self.returning_precedes_order_by() {
+            self.prepare_returning(&update.returning, sql);
+        }
     }
 
     fn prepare_update_join(&self, _: &[TableRef], _: &ConditionHolder, _: &mut dyn SqlWriter) {
@@ -321,11 +326,17 @@ pub trait QueryBuilder:
 
         self.prepare_condition(&delete.r#where, "WHERE", sql);
 
+        if self.returning_precedes_order_by() {
+            self.prepare_returning(&delete.returning, sql);
+        }
+
         self.prepare_delete_order_by(delete, sql);
 
         self.prepare_delete_limit(delete, sql);
 
-        self.prepare_returning(&delete.returning, sql);
+        if !self.returning_precedes_order_by() {
+            self.prepare_returning(&delete.returning, sql);
+        }
     }
 
     /// Translate ORDER BY expression in [`DeleteStatement`].
@@ -1333,6 +1344,13 @@ pub trait QueryBuilder:
     #[doc(hidden)]
     /// Hook to insert "OUTPUT" expressions.
     fn prepare_output(&self, _returning: &Option<ReturningClause>, _sql: &mut dyn SqlWriter) {}
+
+    #[doc(hidden)]
+    /// Whether the RETURNING clause of UPDATE / DELETE comes before ORDER BY / LIMIT
+    /// (SQLite's `update-stmt-limited` / `delete-stmt-limited`) instead of after them.
+    fn returning_precedes_order_by(&self) -> bool {
+        false
+    }
 
     #[doc(hidden)]
     /// Hook to insert "RETURNING" statements.
